@@ -251,6 +251,20 @@ Proof.
   rewrite (Permutation_length (uval_sort_perm _)). assumption.
 Qed.
 
+Lemma default_time_log_not_err a times jumps : default_time_log a times jumps <> UErr.
+Proof. unfold default_time_log. destruct (first_below a (diffq jumps) 0); discriminate. Qed.
+
+(* in range (n at most the number of names) the n-th default is a time or +inf: the code does not raise *)
+Lemma nth_default_in_range k levels times jumps :
+  (k < length (default_times_log levels times jumps))%nat -> nth_default_log k levels times jumps <> UErr.
+Proof.
+  intros Hk Hc. unfold nth_default_log in Hc.
+  assert (Hin : In UErr (uval_sort (default_times_log levels times jumps))).
+  { rewrite <- Hc. apply nth_In. rewrite (Permutation_length (uval_sort_perm _)). assumption. }
+  apply (Permutation_in _ (uval_sort_perm _)) in Hin. unfold default_times_log in Hin.
+  apply in_map_iff in Hin. destruct Hin as [ar [Hd _]]. exact (default_time_log_not_err _ _ _ Hd).
+Qed.
+
 Lemma nth_default_order_statistic levels times jumps :
   let dts := default_times_log levels times jumps in
   Permutation (uval_sort dts) dts /\ Sorted uval_le (uval_sort dts) /\
@@ -343,4 +357,23 @@ Section Machine.
     - rewrite Eev. rewrite (payoff_eval_proper pay _ _ _ Eu). reflexivity.
     - rewrite (Eind _ (payoff_process pay p (barrier_event s'))). rewrite (payoff_eval_proper pay _ _ _ Eu). reflexivity.
   Qed.
+
+  (* 'must succeed': under the stated hypotheses the underlying is a number (or +inf for a default time), never the error
+     value, and then the observation really ends in a payoff value OutV - the identities above are not about the 0 + 0 == 0 of
+     an error branch *)
+  Lemma und_value_succeeds und lg t p j :
+    match und with
+    | USpot | ULogSpot => True
+    | UAsian => length t = length p /\ 0 < last t 0
+    | UDefaultTime _ => True
+    end -> und_value expf logf und lg t p j <> UErr.
+  Proof.
+    destruct und; cbn [und_value]; intros H; try discriminate.
+    - destruct H as [Hl Hp]. rewrite (asian_defined expf lg t p Hl Hp). discriminate.
+    - unfold default_time. apply default_time_log_not_err.
+  Qed.
+
+  Lemma eval3_succeeds pr s lg t p j q : und_value expf logf (p_und pr) lg t p j = UFin q ->
+    exists v, snd (eval3 pr s lg t p j) = OutV v.
+  Proof. intro H. unfold Payoff.eval3. simpl. rewrite H. simpl. eexists. reflexivity. Qed.
 End Machine.
